@@ -85,10 +85,11 @@ def standard_flow(C, tier, replay=None):
     violations, known = [], []
     rejected = dict(v["rejected"])
     kfs = vlib.known_findings(prop)
-    if rejected and kfs and C.get("kf_env"):
+    if rejected and kfs:
         names = sorted({k["id"] for k in kfs})
+        kf_env = C.get("kf_env", lambda ns: {"KF_" + n: "1" for n in ns})
         rtl = [t for t in tl if t["plan"] in rejected]
-        v2 = vlib.validate(tmod, tcfg, rtl, prop + "-kf", env=C["kf_env"](names), timeout=C.get("validate_timeout", 1500))
+        v2 = vlib.validate(tmod, tcfg, rtl, prop + "-kf", env=kf_env(names), timeout=C.get("validate_timeout", 1500))
         for pid in list(rejected):
             if pid in v2["accepted"]:
                 used = v2["kf"].get(pid, [])
